@@ -102,6 +102,7 @@ def run(ctx):
         return
     quick = ctx.tier == "quick"
     rng = ctx.rng
+    ctx.classifiers["annotation_line_after_an_annotated_line"] = lambda case: isinstance(case, dict) and case.get("cls") == "annotation-after-annotated-line"
     ctx.classifiers["const_compares_raw_token"] = lambda case: isinstance(case, dict) and case.get("cls") == "const-escape"
     ctx.extra["rule"] = ("generated schemas with rules (depth <= 4) printed under random compositions of meaning-preserving rewrites: LF / CRLF / CR line ends, indentation (none, spaces, tabs), "
                          "# user comments and ### blocks, inline vs multi-line annotations, notes, quoted vs bare rule names, trailing comma in the rule object, rule order; Check verdict, AST "
@@ -173,7 +174,7 @@ def run(ctx):
     import os
     pairs = []
     for fn in sorted(os.listdir(os.path.join(vc.ROOT, "corpus", "C13"))):
-        if fn.startswith("fixed-") and fn.endswith(".json"):
+        if fn.startswith(("fixed-", "known-")) and fn.endswith(".json"):
             pairs += json.load(open(os.path.join(vc.ROOT, "corpus", "C13", fn)))
     if pairs:
         co = vc.impl(["schema"], [json.dumps({"schema": t, "ops": [["check"], ["ast"]]}) for pr in pairs for t in (pr["base"], pr["respelled"])])
@@ -182,7 +183,7 @@ def run(ctx):
             ctx.evaluations += 1
             same_ast = a[0] == "ok" and b[0] == "ok" and json.dumps(canon_rules(strip_comments(json.loads(a[1][2:]))), sort_keys=True) == json.dumps(canon_rules(strip_comments(json.loads(b[1][2:]))), sort_keys=True)
             if not same_ast and len(ctx.violations) < 40:
-                ctx.report("corpus case: re-spelling changes Check/AST: %r -> %s, %r -> %s" % (pr["base"], a[0], pr["respelled"], b[0]), "c13corpus:" + pr["respelled"], dict(pr, results=[a[0], b[0]]), case={"schema": pr["respelled"]})
+                ctx.report("corpus case: re-spelling changes Check/AST: %r -> %s, %r -> %s" % (pr["base"], a[0], pr["respelled"], b[0]), "c13corpus:" + pr["respelled"], dict(pr, results=[a[0], b[0]]), case={"schema": pr["respelled"], "cls": pr.get("cls")})
     # document keys matched by a key shortcut: an escaped spelling of the key is the same key
     ks = []
     for kt in ('"k"', '"key" // {minLength: 1, maxLength: 3}', '"k" // {regex: "^k"}', '"k" // {enum: ["k", "key"]}', '"k" // {const: true}'):
